@@ -393,3 +393,10 @@ Proof.
   - destruct m as [|m]; [lia|]. destruct l as [|x t]; [cbn [skipn]; rewrite !firstn_nil; reflexivity|].
     cbn [firstn skipn app Nat.sub]. rewrite (IH m t) by lia. reflexivity.
 Qed.
+
+Lemma nlen_acc_eq l a : nlen_acc l a = a + N.of_nat (length l).
+Proof. revert a. induction l as [|x t IH]; intro a; cbn [nlen_acc length]; [lia|]. rewrite IH. lia. Qed.
+Lemma nlen_eq l : nlen l = N.of_nat (length l).
+Proof. unfold nlen. rewrite nlen_acc_eq. lia. Qed.
+Lemma len_acc_eq l a : len_acc l a = (length l + a)%nat.
+Proof. revert a. induction l as [|x t IH]; intro a; cbn [len_acc length]; [lia|]. rewrite IH. lia. Qed.
